@@ -206,6 +206,9 @@ func (e *Evaluator) eval(node parser.Node) (value, error) {
 		return nil, ErrStopped
 	}
 	e.yield()
+	if e.Stopped {
+		return nil, ErrStopped
+	}
 	switch node := node.(type) {
 	case *parser.Program:
 		return e.evalProgram(node)
@@ -432,6 +435,9 @@ func (e *Evaluator) evalFunccall(funcCall *parser.FuncCall) (value, error) {
 	builtin, ok := e.builtins.Funcs[funcCall.Name]
 	if ok {
 		val, err := builtin.Func(e.scope, args)
+		if e.Stopped {
+			return nil, ErrStopped
+		}
 		if funcCall.Name == "test" {
 			e.TestInfo.total++
 			if errors.Is(err, ErrTest) {
